@@ -15,5 +15,3 @@ HARNESSES = _c01.HARNESSES
 META = dict(_c01.META)
 META["functions"] = _c01.META["functions"] + ["LatticeMaze.get_connected_component", "LatticeMaze.generate_random_path", "LatticeMaze.find_shortest_path"]
 META["assumptions"] = _c01.META["assumptions"] + ["'requested number of accessible cells' is int(accessible_cells * rows*cols) for float arguments, as documented"]
-META["bounds"] = dict(_c01.META["bounds"])
-META["bounds"]["thorough"] = _c01.META["bounds"]["thorough"].replace("percolation 3x4,", "percolation 3x4 only for p in {0, 1} (the generic-p component search over 17 free bits exceeded the instance budget),")
